@@ -47,7 +47,7 @@ package zipslicer
 //@   before call io.CopyN(_, src, n): assert @member_body_is_exactly_the_announced_size n == size && src == r
 //@
 //@ macro fileOK(f *File) bool = len(f.lfhName) <= 65535 && len(f.lfhExtra) <= 65535 && (len(f.ddb) == 0 || len(f.ddb) == 16 || len(f.ddb) == 24) && \
-//@        f.Offset <= 2305843009213693952 && f.CompressedSize <= 2305843009213693952
+//@        f.Offset <= 1152921504606846976 && f.CompressedSize <= 1152921504606846976
 //@
 //@ func (*File).readLocalHeader
 //@   property C17
@@ -72,7 +72,7 @@ package zipslicer
 //@ func (*File).GetTotalSize
 //@   property C17
 //@   requires fileOK(f)
-//@   ensures @file_invariant_kept fileOK(f) && (ret1 == nil ==> 30 <= ret0 && ret0 <= 2305843009213693952 + 131124)
+//@   ensures @file_invariant_kept fileOK(f) && (ret1 == nil ==> 30 <= ret0 && ret0 <= 1152921504606846976 + 131124)
 //@   ensures @total_is_header_name_extra_data_descriptor ret1 == nil ==> ret0 == 30 + len(f.lfhName) + len(f.lfhExtra) + len(f.ddb) + f.CompressedSize
 //@   modifies f.lfh, f.lfhName, f.lfhExtra, f.ddb, f.CRC32
 //@
@@ -87,6 +87,7 @@ package zipslicer
 //@        unbox(v, zip64Extra).Offset == old(f.Offset) && unbox(v, zip64Extra).CompressedSize == old(f.CompressedSize) && \
 //@        unbox(v, zip64Extra).UncompressedSize == old(f.UncompressedSize) && unbox(v, zip64Extra).Signature == 1 && unbox(v, zip64Extra).RecordSize == 24
 //@   ensures @cached_original_bytes_reused old(len(f.raw)) > 0 ==> sameslice(ret0, old(f.raw)) && ret1 == nil
+//@   modifies f.Extra
 //@
 //@ func (*Directory).AddFile
 //@   property C17 C03
@@ -96,12 +97,15 @@ package zipslicer
 //@   ensures @member_placed_at_the_end_of_the_contents ret1 == nil ==> f.Offset == old(d.DirLoc)
 //@   ensures @contents_end_advances_by_the_member_size ret1 == nil ==> d.DirLoc == old(d.DirLoc) + size
 //@   ensures @member_appended_to_the_directory ret1 == nil ==> len(d.File) == old(len(d.File)) + 1 && d.File[len(d.File)-1] == f
+//@   ensures @directory_grows_in_place_or_into_new_memory (samearr(d.File, old(d.File)) && cap(d.File) == old(cap(d.File))) || allocated(d.File)
 //@   ensures @cached_header_dropped_when_the_member_moved ret1 == nil && old(f.Offset) != old(d.DirLoc) ==> len(f.raw) == 0
+//@   modifies f.lfh, f.lfhName, f.lfhExtra, f.ddb, f.CRC32, f.raw, f.Offset, d.DirLoc, d.File, mem(d.File)
 //@
 //@ func (*Directory).WriteDirectory
 //@   property C17
 //@   requires 0 <= d.DirLoc && d.DirLoc <= 2305843009213693952
 //@   before call (*bufio.Writer).Reset(_, w): assert @end_records_go_to_a_real_writer w != nil
+//@   modifies any File.Extra
 //@   before call encoding/binary.Write(_, _, v): assert @end_record_describes_the_directory istype(v, zipEndRecord) && !(minVersion == 45) ==> \
 //@        unbox(v, zipEndRecord).TotalCDCount == count && unbox(v, zipEndRecord).DiskCDCount == count && unbox(v, zipEndRecord).CDSize == size && \
 //@        unbox(v, zipEndRecord).CDOffset == cdoff && unbox(v, zipEndRecord).Signature == 101010256
@@ -115,3 +119,34 @@ package zipslicer
 //@   requires 0 <= d.DirLoc && d.DirLoc <= 2305843009213693952
 //@   before call encoding/binary.Write(_, _, v): assert @absent_zip64_records_are_not_emitted \
 //@        (istype(v, zip64End) ==> unbox(v, zip64End).Signature != 0) && (istype(v, zip64Loc) ==> unbox(v, zip64Loc).Signature != 0)
+//@
+//@ extern dynamic callback(mf) ret (e)
+//@   modifies mf.deleted, mf.File.lfh, mf.File.lfhName, mf.File.lfhExtra, mf.File.ddb, mf.File.CRC32
+//@   ensures old(fileOK(addr(mf.File))) ==> fileOK(addr(mf.File))
+//@
+//@ func (*Directory).Mangle
+//@   property C03
+//@   requires forall(i, 0, len(d.File), d.File[i] != nil && fileOK(d.File[i]))
+//@   requires 0 <= d.DirLoc && d.DirLoc <= 2305843009213693952
+//@   ghost cut int = 0
+//@   ghost covered int = 0
+//@   ghost lastSize int = 0
+//@   on call (*File).GetTotalSize(_) ret (n, e): lastSize = n
+//@   before call (*binpatch.PatchSet).Add(_, off, sz, blob): assert @only_deleted_members_are_cut_out mf.deleted && off == mf.Offset && sz == lastSize && len(blob) == 0
+//@   before call (*binpatch.PatchSet).Add(_, off, sz, blob): assert @cuts_follow_file_order off >= covered
+//@   on call (*binpatch.PatchSet).Add(_, off, sz, _) ret (): cut = cut + sz; covered = off + sz
+//@   before call (*Directory).AddFile(z, f): assert @kept_members_stay_where_their_bytes_are !mf.deleted && z == m.outz && f == addr(mf.File) && \
+//@        z.DirLoc == mf.Offset - cut && mf.Offset >= covered
+//@   on call (*Directory).AddFile(_, _) ret (r, e): covered = atcall(mf.Offset) + lastSize
+//@   loop 0 sig "for _, f := range d.File" invariant 0 <= cut && cut <= covered && covered == lastEnd && cut == removed && m.outz != nil && m.outz != d && m.patch != nil && \
+//@        binpatch.repOK(m.patch) && binpatch.rangesOK(m.patch) && m.indir == d.DirLoc && m.insize == d.Size && d.DirLoc == old(d.DirLoc) && d.Size == old(d.Size)
+//@   loop 0 invariant @members_stay_well_formed forall(i, 0, len(pre(d.File)), pre(d.File)[i] != nil && fileOK(pre(d.File)[i]))
+//@   loop 0 invariant @new_directory_in_its_own_memory m.outz.File == nil || allocated(m.outz.File)
+//@   ensures @new_members_go_where_the_old_directory_started ret1 == nil ==> ret0 != nil && ret0.outz != nil && ret0.outz.DirLoc == old(d.DirLoc) - cut && \
+//@        covered <= old(d.DirLoc) && ret0.indir == old(d.DirLoc) && ret0.insize == old(d.Size)
+//@
+//@ func (*Mangler).MakePatch
+//@   property C03
+//@   requires m.outz != nil && m.patch != nil && binpatch.repOK(m.patch) && binpatch.rangesOK(m.patch)
+//@   requires 0 <= m.outz.DirLoc && m.outz.DirLoc <= 2305843009213693952 && 0 <= m.indir && m.indir <= m.insize && m.insize <= 2305843009213693952
+//@   before call (*binpatch.PatchSet).Add(_, off, sz, blob): assert @directory_tail_replaced_as_a_whole off == m.indir && sz == m.insize - m.indir
